@@ -122,7 +122,56 @@ def check_cmp_instrs(repo, scratch):
     return res
 
 
-CHECKS = {"cmp_instrs": check_cmp_instrs}
+def _fn_text(repo, path, name):
+    from rustlex import find_fns
+    p = os.path.join(repo, path)
+    if not os.path.exists(p):
+        return None
+    toks = lex(open(p, encoding="utf-8").read())
+    its = find_fns(toks, name)
+    if len(its) != 1:
+        return None
+    blk = toks[its[0].body_open:its[0].body_close + 1]
+    return " ".join(t.text for t in _sig(blk)).replace(": :", "::").replace("= >", "=>")
+
+
+def check_switch_routes(repo, scratch):
+    """Which first-argument kinds are looked up by key in the constant index (route `c`)?
+    Only kinds whose keys are canonical (unit indexkey) may be; big integers and rationals, whose
+    keys are arena addresses, must take the try-every-clause route `v`."""
+    base = "structural::switch_routes::"
+    res = {"obligations": [base + k for k in ("var_to_v", "list_to_l", "small_const_to_c", "atom_to_c", "bignum_to_v")], "failed": [], "undecided": [],
+           "assumptions": ["[structural:switch_routes] the variable route `v` tries every clause in textual order and head unification selects (C10/C07 territory, not decided here)"],
+           "functions": [{"name": "MachineState::select_switch_on_term_index", "file": "src/machine/dispatch.rs", "engine": "structural", "unit": "switch_routes", "under_contract": True}]}
+    s = _fn_text(repo, "src/machine/dispatch.rs", "select_switch_on_term_index")
+    if s is None:
+        res["undecided"].append(base + ": select_switch_on_term_index not found (lost anchor)"); return res
+    T = "HeapCellValueTag :: "
+    def route(pattern):
+        m = re.search(pattern + r" => \{ (\w+) \}", s)
+        return m.group(1) if m else None
+    table = [
+        ("var_to_v", r"\( %sVar \| %sStackVar \| %sAttrVar \)" % (T, T, T), "v"),
+        ("list_to_l", r"\( %sPStrLoc \| %sLis \)" % (T, T), "l"),
+        ("small_const_to_c", r"\( %sFixnum \| %sCutPoint \| %sF64Offset \)" % (T, T, T), "c"),
+        ("bignum_to_v", r"ArenaHeaderTag :: Rational \| ArenaHeaderTag :: Integer", "v"),
+    ]
+    for name, pat, want in table:
+        got = route(pat)
+        if got is None:
+            res["undecided"].append(base + name + ": arm not recognised (lost anchor)")
+        elif got != want:
+            res["failed"].append({"obligation": base + name, "engine": "structural", "source": "select_switch_on_term_index", "at": "src/machine/dispatch.rs",
+                                  "message": "first arguments of this kind are routed to `%s`, must be `%s`%s" % (got, want, " (big numbers are keyed by arena address in the constant index: equal values miss their key)" if name == "bignum_to_v" else "")})
+    m = re.search(r"\( %sAtom , \( _name , arity \) \) => \{ debug_assert ! \( arity = = 0 \) ; (\w+) \}" % T, s)
+    if not m:
+        res["undecided"].append(base + "atom_to_c: arm not recognised (lost anchor)")
+    elif m.group(1) != "c":
+        res["failed"].append({"obligation": base + "atom_to_c", "engine": "structural", "source": "select_switch_on_term_index", "at": "src/machine/dispatch.rs", "message": "atoms routed to `%s`, must be `c`" % m.group(1)})
+    return res
+
+
+CHECKS = {"cmp_instrs": check_cmp_instrs, "switch_routes": check_switch_routes}
 
 
 def run(names, repo, scratch=None):
